@@ -12,8 +12,10 @@ import (
 )
 
 type vLedger struct {
-	sum   map[string]int64
-	calls map[string]int
+	sum       map[string]int64
+	calls     map[string]int
+	callbacks []metric.Callback
+	observed  map[string]int64
 }
 
 func vNewLedger() *vLedger { return &vLedger{sum: map[string]int64{}, calls: map[string]int{}} }
@@ -45,4 +47,43 @@ type vLedgerCounter struct {
 func (c *vLedgerCounter) Add(_ context.Context, v int64, _ ...metric.AddOption) {
 	c.led.sum[c.name] += v
 	c.led.calls[c.name]++
+}
+
+// ---- observable gauges: callbacks are kept and can be run by the harness --------------------
+
+type vLedgerGauge struct {
+	noop.Int64ObservableGauge
+	name string
+}
+
+func (m vLedgerMeter) Int64ObservableGauge(name string, _ ...metric.Int64ObservableGaugeOption) (metric.Int64ObservableGauge, error) {
+	return &vLedgerGauge{name: name}, nil
+}
+
+type vLedgerReg struct{ noop.Registration }
+
+func (m vLedgerMeter) RegisterCallback(f metric.Callback, _ ...metric.Observable) (metric.Registration, error) {
+	m.led.callbacks = append(m.led.callbacks, f)
+	return vLedgerReg{}, nil
+}
+
+type vLedgerObserver struct {
+	noop.Observer
+	led *vLedger
+}
+
+func (o vLedgerObserver) ObserveInt64(inst metric.Int64Observable, v int64, _ ...metric.ObserveOption) {
+	if g, ok := inst.(*vLedgerGauge); ok {
+		o.led.observed[g.name] = v
+	}
+}
+
+// vCollect runs every registered callback once, as a metric reader would.
+func (l *vLedger) vCollect() {
+	if l.observed == nil {
+		l.observed = map[string]int64{}
+	}
+	for _, cb := range l.callbacks {
+		_ = cb(context.Background(), vLedgerObserver{led: l})
+	}
 }
